@@ -623,6 +623,15 @@ def run_share_surface(desc, ctx):
 
 # ----------------------------------------------------------------------------- Bezier
 def _as_ptype(P, ptype):
+    whole = all(float(c).is_integer() and abs(c) < 2 ** 50 for p in P for c in p)
+    if whole:
+        # whole-number control points are also given as Python ints / integer arrays (a working copy must not inherit an integer dtype)
+        if ptype == "nd":
+            return np.array([[int(c) for c in p] for p in P], dtype=np.int64)
+        if ptype == "tuple":
+            return tuple(tuple(int(c) for c in p) for p in P)
+        if ptype == "list":
+            return [[int(c) for c in p] for p in P]
     if ptype == "nd":
         return np.array(P, float)
     if ptype == "tuple":
@@ -813,7 +822,8 @@ def run_patch(desc, ctx):
         ctx.nontrivial(_key(desc))
     net_in = [_as_ptype(row, desc["ptype"]) for row in net]
     if desc["ptype"] == "nd":
-        net_in = np.array(net, float)
+        whole = all(float(c).is_integer() and abs(c) < 2 ** 50 for p in flat for c in p)
+        net_in = np.array([[[int(c) for c in p] for p in row] for row in net], dtype=np.int64) if whole else np.array(net, float)
     ok, bp = ctx.call("BezierPatch", BezierPatch, net_in, monitor="bernstein")
     exported = None
     convs = {"u_inner", "u_outer"}     # which index of the net the first parameter runs with
